@@ -122,7 +122,12 @@ impl PhysLayer {
                 x.write_all(data).await
             }
             #[cfg(feature = "enable-tls")]
-            PhysLayerImpl::Tls(x) => x.write_all(data).await,
+            PhysLayerImpl::Tls(x) => {
+                x.write_all(data).await?;
+                // when the socket pushes back, the TLS stream accepts the plaintext but keeps part of
+                // the record buffered: without a flush it would only leave with the next write
+                x.flush().await
+            }
             #[cfg(test)]
             PhysLayerImpl::Mock(x) => x.write_all(data).await,
         }
